@@ -1,4 +1,5 @@
-import XsgModel.Proofs.DeserOk
+import XsgModel.Proofs.DeserQuick
+import XsgModel.Proofs.DeserSxr
 import XsgModel.Proofs.SpecOf
 /-!
 # The side condition of C02 stated on the documents
@@ -64,6 +65,61 @@ theorem abs_keysOK (e : Elem) : e.abs.keysOK = e.keysOK := by
           have := (hp.map (fun k => removeNamespace k.1)).nodup_iff
           simpa [List.map_map, Function.comp_def] using this
       · rw [hp.all_eq]
+        simp [List.all_map, Function.comp_def]
+    · rw [hp.all_eq]
+      simp only [List.all_map, Function.comp_def]
+      rw [Bool.eq_iff_iff, List.all_eq_true, List.all_eq_true]
+      constructor
+      · intro h c hc; rw [← ih c hc]; exact h c hc
+      · intro h c hc; rw [ih c hc]; exact h c hc
+termination_by sizeOf e
+decreasing_by
+  exact hlt
+
+/-! ### the scope of C13 on the schema of the documents -/
+
+def Schema.sxrOK : Schema → Bool
+  | .mk _ as ks =>
+    as.all (fun a => plainName a.2) && ks.all (fun k => plainName k.1) && decide ((as.map (·.2)).Nodup) &&
+    as.all (fun a => ks.all (fun k => decide (a.2 ≠ k.1))) && kidsOK ks
+where
+  kidsOK : List (Name × Nec × Bool × Schema) → Bool
+    | [] => true
+    | (_, _, _, s) :: rest => s.sxrOK && kidsOK rest
+
+theorem Schema.sxrKidsOK_eq (ks : List (Name × Nec × Bool × Schema)) :
+    Schema.sxrOK.kidsOK ks = ks.all (fun k => k.2.2.2.sxrOK) := by
+  induction ks with
+  | nil => rfl
+  | cons k ks ih =>
+    obtain ⟨a, b, c, s⟩ := k
+    simp [Schema.sxrOK.kidsOK, ih]
+
+theorem Elem.sxrKids_eq (cs : List (Nec × Elem)) : Elem.sxrOK.sxrKids cs = cs.all (fun c => c.2.sxrOK) := by
+  induction cs with
+  | nil => rfl
+  | cons c cs ih =>
+    obtain ⟨a, e⟩ := c
+    simp [Elem.sxrOK.sxrKids, ih]
+
+theorem abs_sxrOK (e : Elem) : e.abs.sxrOK = e.sxrOK := by
+  cases e with
+  | mk n t s cnt as cs p =>
+    have hp := abs_kids_perm cs
+    have ih : ∀ c ∈ cs, c.2.abs.sxrOK = c.2.sxrOK := by
+      intro c hc
+      have hlt : sizeOf c.2 < sizeOf (Elem.mk n t s cnt as cs p) := sizeOf_child_lt (e := Elem.mk n t s cnt as cs p) hc
+      exact abs_sxrOK c.2
+    simp only [Elem.abs, Schema.sxrOK, Elem.sxrOK, Schema.sxrKidsOK_eq, Elem.sxrKids_eq]
+    congr 1
+    · congr 1
+      · congr 1
+        congr 1
+        rw [hp.all_eq]
+        simp [List.all_map, Function.comp_def]
+      · apply List.all_congr rfl
+        intro a
+        rw [hp.all_eq]
         simp [List.all_map, Function.comp_def]
     · rw [hp.all_eq]
       simp only [List.all_map, Function.comp_def]
